@@ -27,6 +27,9 @@ class LinkSpec:
         self.fail_reporter = 'driver'  # 'driver' (driver-owned thread) | 'sender' (inside send_packet)
         self.fail_msg = 'simulated link failure'
         self.connect_error = None     # exception instance raised by connect()
+        self.deliver_queued_after_close = False   # packets that had already arrived when the link was closed stay in the
+        #                                           driver's queue and are still handed out (real drivers do not
+        #                                           drain their in-queue on close())
         self.fail_in_connect = None   # link error reported while connect() is still running: 'sync' (connecting
         #                               thread) | 'thread' (driver thread, before connect returns) | 'race' (driver
         #                               thread, racing with the return of connect)
@@ -180,6 +183,18 @@ class SimLinkDriver(CRTPDriver):
         if self.spec is not None and self.spec.dispatching is threading.current_thread():
             self.spec.dispatching = None
         while True:
+            if self.closed and self.spec is not None and self.spec.deliver_queued_after_close and self._inflight and \
+                    self._inflight[0][0] <= getattr(self, 'closed_at', -1.0):
+                _, _, h, d = heapq.heappop(self._inflight)
+                spec = self.spec
+                spec.n_rx += 1
+                spec.seq += 1
+                spec.rx.append((self._now(), self.session, h, d, spec.seq))
+                spec.rx_after_close = getattr(spec, 'rx_after_close', 0) + 1
+                spec.dispatching = threading.current_thread()
+                if spec.on_dispatch_start is not None:
+                    spec.on_dispatch_start()
+                return CRTPPacket(h, list(d))
             if self.closed or getattr(self, 'dead', False):
                 if wait > 0 and s is not None:
                     rem = deadline - s.now
@@ -213,6 +228,7 @@ class SimLinkDriver(CRTPDriver):
         if self.closed:
             return
         self.closed = True
+        self.closed_at = self._now()
         th = self._thread
         th.stop_flag = True
         th.kick.set()
